@@ -18,12 +18,17 @@ import (
 	"bufio"
 	"context"
 	"fmt"
+	"go/ast"
+	"go/parser"
+	"go/token"
 	"net"
 	"net/http"
 	"os"
 	"path/filepath"
+	"runtime"
 	"strings"
 	"sync"
+	"sync/atomic"
 	"time"
 
 	"github.com/coder/websocket"
@@ -34,7 +39,7 @@ import (
 )
 
 func init() {
-	register(&Prop{ID: "C45", Module: "V.C45.Check", Gen: c45Gen, Quick: 16, Thorough: 100, Shard: 2})
+	register(&Prop{ID: "C45", Module: "V.C45.Check", Gen: c45Gen, Quick: 20, Thorough: 100, Shard: 2})
 }
 
 // c45RawUpgrade sends a GET /watch on conn. good=false omits the upgrade headers (websocket.Accept fails).
@@ -45,7 +50,7 @@ func c45RawUpgrade(conn net.Conn, good bool) int {
 		req += "Connection: Upgrade\r\nUpgrade: websocket\r\nSec-WebSocket-Version: 13\r\nSec-WebSocket-Key: dGhlIHNhbXBsZSBub25jZQ==\r\n"
 	}
 	req += "\r\n"
-	conn.SetDeadline(time.Now().Add(8 * time.Second))
+	conn.SetDeadline(time.Now().Add(120 * time.Second))
 	if _, err := conn.Write([]byte(req)); err != nil {
 		c45Debug("raw write: %v", err)
 		return 0
@@ -65,12 +70,78 @@ func c45Debug(f string, a ...any) {
 }
 
 type c45Attempt struct {
-	id      int
-	conn    net.Conn
-	kind    string // "ws" real client library, "raw" raw good upgrade (never answers the close handshake), "bad"
-	offset  time.Duration // when to fire, relative to the close call (negative = before)
-	lazy    time.Duration // ws only: start reading this long after the upgrade succeeded (0 = at once)
-	late    bool          // fired only after close has returned
+	id     int
+	conn   net.Conn
+	kind   string        // "ws" real client library, "raw" raw good upgrade (never answers the close handshake), "bad"
+	offset time.Duration // when to fire, relative to the close call (negative = before)
+	lazy   time.Duration // ws only: start reading this long after the upgrade succeeded (0 = at once)
+	late   bool          // fired only after close has returned
+	hold   time.Duration // raw only: close the TCP connection this long after shutdown began
+
+	code             atomic.Int32 // HTTP status read by the harness (0 = none yet / transport error)
+	answered         atomic.Bool  // the answer has been read
+	readBeforeCensus bool         // ... before the census at the return of close() started
+}
+
+// c45Census takes ONE snapshot of all goroutines (runtime.Stack stops the world) and counts: client
+// handlers (the goroutine started by handleWatch), heartbeats, and requests that are inside handleWatch
+// itself and have not yet reached its `go` statement (goLine), i.e. are not yet past admission + upgrade.
+func c45Census(goLine int) (handlers, heartbeats, inflightPre int) {
+	buf := make([]byte, 1<<20)
+	for {
+		n := runtime.Stack(buf, true)
+		if n < len(buf) {
+			buf = buf[:n]
+			break
+		}
+		buf = make([]byte, 2*len(buf))
+	}
+	for _, g := range strings.Split(string(buf), "\n\n") {
+		if strings.Contains(g, "d2cli.(*watcher).handleWatch.func1(") {
+			handlers++
+		}
+		if strings.Contains(g, "d2cli.wsHeartbeat(") {
+			heartbeats++
+		}
+		if i := strings.Index(g, "d2cli.(*watcher).handleWatch("); i >= 0 {
+			// the next line is "\t<file>:<line> +0x..."
+			rest := g[i:]
+			if j := strings.Index(rest, "\n"); j >= 0 {
+				loc := rest[j+1:]
+				if k := strings.Index(loc, "\n"); k >= 0 {
+					loc = loc[:k]
+				}
+				line := 0
+				if c := strings.LastIndex(loc, ":"); c >= 0 {
+					fmt.Sscanf(loc[c+1:], "%d", &line)
+				}
+				if goLine == 0 || line < goLine {
+					inflightPre++
+				}
+			}
+		}
+	}
+	return
+}
+
+// c45GoLine: the line of the `go func() {...}()` statement of handleWatch in the source the harness was
+// built against (0 if it cannot be found: then every request inside handleWatch counts as pre-admission).
+func c45GoLine() int {
+	fset := token.NewFileSet()
+	f, err := parser.ParseFile(fset, filepath.Join(repoRoot(), "d2cli", "watch.go"), nil, 0)
+	if err != nil {
+		return 0
+	}
+	for _, d := range f.Decls {
+		if fd, ok := d.(*ast.FuncDecl); ok && fd.Name.Name == "handleWatch" && fd.Body != nil {
+			for _, st := range fd.Body.List {
+				if g, ok := st.(*ast.GoStmt); ok {
+					return fset.Position(g.Pos()).Line
+				}
+			}
+		}
+	}
+	return 0
 }
 
 func c45Session(r *Rng, sid int, class string) Case {
@@ -80,12 +151,12 @@ func c45Session(r *Rng, sid int, class string) Case {
 	log := c44NewLog()
 
 	var addr string
-	var closeFn func()          // what "shutdown" means in this session
+	var closeFn func() // what "shutdown" means in this session
 	runDone := make(chan error, 1)
 	var cancelRun context.CancelFunc
 
 	if class == "cancel" {
-		srv, err := c44Start(dir, log)
+		srv, err := c44Start(dir, log, 0)
 		if err != nil {
 			cs.ImplFail = []string{err.Error()}
 			cs.Coq = "Case []"
@@ -102,7 +173,16 @@ func c45Session(r *Rng, sid int, class string) Case {
 			return cs
 		}
 		lw := &c44LogWriter{addr: make(chan string, 1), log: log}
-		ms := c44State(dir, nil, lw)
+		var extraEnv []string
+		if class == "race" {
+			// a slow stderr with debug logging on: every line the server logs takes 5-15 ms, which
+			// stretches whatever the code does between two of its own steps around a log call
+			extraEnv = []string{"DEBUG=1"}
+			log.jitter = func() {
+				time.Sleep(time.Duration(5000+time.Now().UnixNano()%10000) * time.Microsecond)
+			}
+		}
+		ms := c44State(dir, nil, lw, extraEnv...)
 		ctx, cancel := context.WithCancel(context.Background())
 		cancelRun = cancel
 		vw, err := d2cli.VerifNewWatcher(ctx, ms, in, filepath.Join(dir, "out.svg"))
@@ -215,18 +295,18 @@ func c45Session(r *Rng, sid int, class string) Case {
 		nLate = r.Range(1, 2)
 	}
 	if class == "race" {
-		nRace = r.Range(1, 3)
+		nRace = r.Range(1, 2)
 		nLate = 1
 	}
 	var atts []*c45Attempt
 	for i := 0; i < nRace+nLate; i++ {
-		conn, err := net.DialTimeout("tcp", addr, 5*time.Second)
+		conn, err := net.DialTimeout("tcp", addr, 120*time.Second)
 		if err != nil {
 			fail("harness: cannot pre-open connection: " + err.Error())
 			break
 		}
 		allConns = append(allConns, conn)
-		a := &c45Attempt{id: nextID, conn: conn}
+		a := &c45Attempt{id: nextID, conn: conn, hold: time.Duration(r.Range(80, 300)) * time.Millisecond}
 		nextID++
 		switch k := r.Intn(10); {
 		case k < 5:
@@ -245,10 +325,11 @@ func c45Session(r *Rng, sid int, class string) Case {
 			// offsets concentrated around the close call
 			us := []int{-30000, -5000, -1000, -300, -100, -30, 0, 20, 60, 150, 400, 1000, 4000, 20000}[r.Intn(14)]
 			if class == "race" {
-				us = -r.Range(0, 600)
-				if a.kind == "bad" {
-					a.kind = "raw"
-				}
+				us = -r.Range(0, 9000)
+				// a client that is slow to answer the close handshake: its handler, once started,
+				// is still there when the censuses are taken
+				a.kind = "ws"
+				a.lazy = time.Duration(r.Range(200, 400)) * time.Millisecond
 			}
 			a.offset = time.Duration(us+r.Range(-20, 20)) * time.Microsecond
 		}
@@ -267,11 +348,15 @@ func c45Session(r *Rng, sid int, class string) Case {
 			conn, code, err := c44Dial(addr, a.conn)
 			if err != nil {
 				c45Debug("ws dial %d: code=%d %v", a.id, code, err)
+				a.code.Store(int32(code))
+				a.answered.Store(true)
 				if code != 0 {
 					log.add(c44Ev{Kind: "res", C: a.id, V: code}, nil)
 				}
 				return
 			}
+			a.code.Store(101)
+			a.answered.Store(true)
 			log.add(c44Ev{Kind: "res", C: a.id, V: 101}, nil)
 			mu.Lock()
 			wsConns = append(wsConns, conn)
@@ -286,13 +371,15 @@ func c45Session(r *Rng, sid int, class string) Case {
 			}()
 		default:
 			code := c45RawUpgrade(a.conn, a.kind == "raw")
+			a.code.Store(int32(code))
+			a.answered.Store(true)
 			if code != 0 {
 				log.add(c44Ev{Kind: "res", C: a.id, V: code}, nil)
 			}
 			if code == 101 {
 				// a peer that never answers the close handshake: its handler lives until the TCP
 				// connection goes away
-				d := time.Duration(r.Range(80, 300)) * time.Millisecond
+				d := a.hold
 				go func() {
 					<-shutdownStarted
 					time.Sleep(d)
@@ -321,6 +408,8 @@ func c45Session(r *Rng, sid int, class string) Case {
 	time.Sleep(time.Until(t0))
 
 	handlersAtReturn := -1
+	inflightAtReturn := 0
+	goLine := c45GoLine()
 	returned := true
 	if class == "cancel" {
 		log.add(c44Ev{Kind: "cancel"}, nil)
@@ -330,10 +419,10 @@ func c45Session(r *Rng, sid int, class string) Case {
 		racing.Wait()
 		select {
 		case <-runDone:
-			handlersAtReturn, _ = d2cli.VerifWatchGoroutines()
-		case <-time.After(40 * time.Second):
+			handlersAtReturn, _, _ = c45Census(goLine)
+		case <-time.After(240 * time.Second):
 			returned = false
-			fail("d2cli.Run did not return within 40s of cancelling its context")
+			fail("d2cli.Run did not return within 240s of cancelling its context")
 		}
 	} else {
 		log.add(c44Ev{Kind: "closecall"}, nil)
@@ -346,20 +435,50 @@ func c45Session(r *Rng, sid int, class string) Case {
 				}
 				close(done)
 			}()
+			c45Debug("close called %dus", time.Since(log.t0).Microseconds())
 			closeFn()
-			handlersAtReturn, _ = d2cli.VerifWatchGoroutines()
+			c45Debug("close returned %dus", time.Since(log.t0).Microseconds())
+			// which answers had been read before this point (read first: an answer read later counts
+			// as unread, which can only make the check below more lenient)
+			for _, a := range atts {
+				a.readBeforeCensus = a.answered.Load()
+			}
+			handlersAtReturn, _, inflightAtReturn = c45Census(goLine)
 		}()
 		select {
 		case <-done:
-		case <-time.After(40 * time.Second):
+		case <-time.After(240 * time.Second):
 			returned = false
-			fail("watcher.close() did not return within 40s")
+			fail("watcher.close() did not return within 240s")
 		}
 		racing.Wait()
+		// Once close() has returned no handler may ever exist again (C45_returned_no_handlers): a
+		// second census, taken when every racing upgrade has been answered, catches a request that was
+		// still inside handleWatch when close() returned and became a client afterwards.
+		if returned {
+			h2, hb2, _ := c45Census(goLine)
+			c45Debug("second census %dus: handlers=%d heartbeats=%d (first %d, inflight %d)", time.Since(log.t0).Microseconds(), h2, hb2, handlersAtReturn, inflightAtReturn)
+			if h2 > handlersAtReturn {
+				handlersAtReturn = h2
+			}
+			// Requests that were inside handleWatch, before its go statement, when close() returned, can
+			// only be answered 503/4xx: past wsclientsWG.Add(1) they would have kept close() waiting.
+			// If there were more of them than racing upgrades that were still unanswered then and did
+			// not end as websocket clients, one of them was admitted after close() had returned.
+			nonAdmitUnread := 0
+			for _, a := range atts {
+				if !a.late && !a.readBeforeCensus && a.code.Load() != 101 {
+					nonAdmitUnread++
+				}
+			}
+			if late := inflightAtReturn - nonAdmitUnread; late > handlersAtReturn {
+				handlersAtReturn = late
+			}
+		}
 	}
 	// Everything the server put out before returning has to be in the history before the return is:
 	// wait for the receivers (their connections are closed by the finished handlers).
-	waitTimeout(&readers, 8*time.Second)
+	waitTimeout(&readers, 120*time.Second)
 	if returned {
 		log.add(c44Ev{Kind: "closereturn", V: handlersAtReturn}, nil)
 	}
@@ -384,13 +503,13 @@ func c45Session(r *Rng, sid int, class string) Case {
 	if class != "cancel" {
 		select {
 		case <-runDone:
-		case <-time.After(40 * time.Second):
-			fail("watcher.run() did not return within 40s of close()")
+		case <-time.After(240 * time.Second):
+			fail("watcher.run() did not return within 240s of close()")
 		}
 	}
-	leakDeadline := time.Now().Add(6 * time.Second)
+	leakDeadline := time.Now().Add(120 * time.Second)
 	for {
-		h, hb := d2cli.VerifWatchGoroutines()
+		h, hb, _ := c45Census(goLine)
 		if (h == 0 && hb == 0) || c45OtherSessions() {
 			break
 		}
@@ -455,13 +574,7 @@ func waitTimeout(wg *sync.WaitGroup, d time.Duration) bool {
 func c45Gen(r *Rng, tier string, n int) []Case {
 	out := make([]Case, 0, n)
 	for i := 0; i < n; i++ {
-		class := "close"
-		if i%4 == 3 {
-			class = "cancel"
-		}
-		if i%4 == 1 {
-			class = "race"
-		}
+		class := []string{"close", "race", "close", "race", "cancel"}[i%5]
 		rr := r.Fork()
 		func() {
 			defer func() {
